@@ -59,6 +59,12 @@ def generate(rng, tier):
         alloc = ["pool", "simple", "track"][k % 3]
         cases.append({"lines": [f"schema-prep{rng.choice([1, 2, 3])} {alloc} {G.hx(e)} {G.hx(t)}"], "cls": f"prep/{alloc}", "ntexts": 1, "empty_obj": re.search(rb"\{\s*\}", t) is not None,
                       "nontrivial": True})
+    # repeated application on ONE document object across pairs (Parse, ParseSchema, Parse, ParseSchema, destroy) and after a document swap
+    for k in range(120 if quick else 8000):
+        e, t = MG.schema_pair(rng)
+        alloc = ["simple", "track", "pool"][k % 3]
+        cases.append({"lines": [f"{rng.choice(['schema-reparse', 'schema-swap'])} {alloc} {G.hx(e)} {G.hx(t)}"], "cls": f"reuse/{alloc}", "ntexts": 1,
+                      "empty_obj": re.search(rb"\{\s*\}", t) is not None, "nontrivial": True})
     return cases
 
 
@@ -75,6 +81,11 @@ def judge(case, mo, io, cfg):
         return ("violation", f"ParseSchema crashed / sanitizer report: {io[0][:220]} for `{case['lines'][0][:200]}`")
     if io[0] in ("bad-input", "bad-op"):
         return None
+    if " copy=" in io[0]:
+        body = io[0].rpartition(" ledger=")[0] if " ledger=" in io[0] else io[0]
+        head, _, cp = body.rpartition(" copy=")
+        if cp != head.rpartition(" tree=")[2]:
+            return ("violation", f"document changed after swap / reuse of the document object: now {cp[:160]} for `{case['lines'][0][:200]}`")
     ip, iled = _parts(io[0])
     mp, _ = _parts(mo[0])
     if len(ip) != len(mp):
